@@ -12,6 +12,7 @@
 #include <errno.h>
 #include <stdlib.h>
 #include <string.h>
+#include <sys/ioctl.h>
 #include <sys/socket.h>
 #include <unistd.h>
 
@@ -49,7 +50,9 @@ typedef struct scn {
 	const char *name;
 	int         nreq;      // 1 = socket, 2 = two contexts
 	int         retry[2];  // RESEND or -1 (infinite)
+	int         big;       // request bodies of BIGBODY bytes
 } scn;
+#define BIGBODY 120000
 static int        g_depth;
 static const int *g_map; // letters in use (g_map[0] == F_END)
 static int        g_nmap;
@@ -66,6 +69,8 @@ typedef struct conn {
 typedef struct rq {
 	const char *tag;
 	size_t      taglen;
+	const char *body; // what goes on the wire (tag, or tag + filler)
+	size_t      bodylen;
 	int         finite;
 	nng_aio    *saio, *raio;
 	int         s_ncb, s_res;
@@ -206,12 +211,12 @@ sighting(int ci, const uint8_t *p, size_t len, int reply)
 		g_id0 = id;
 	rq *r = NULL;
 	for (int i = 0; i < 3; i++)
-		if (R[i].tag && len - 4 == R[i].taglen &&
-		    memcmp(p + 4, R[i].tag, R[i].taglen) == 0)
+		if (R[i].tag && len - 4 == R[i].bodylen &&
+		    memcmp(p + 4, R[i].body, R[i].bodylen) == 0)
 			r = &R[i];
 	if (r == NULL)
-		vs_fail("C12:corrupt-request", "[%s] unknown request body %s", g_seq,
-		    vh_hex(p + 4, len - 4));
+		vs_fail("C12:corrupt-request", "[%s] unknown request body (%zu bytes) %s",
+		    g_seq, len - 4, vh_hex(p + 4, len - 4 > 32 ? 32 : len - 4));
 	int64_t now = vs_now();
 	// a frame written after the reply had been delivered
 	if (r->ncb > 0 && r->res == 0 && C[ci].drained_at > r->t_cb)
@@ -363,6 +368,10 @@ peek(int ci)
 	conn          *c = &C[ci];
 	ssize_t        n = recv(c->fd, buf, sizeof(buf), MSG_PEEK);
 	size_t         o = 0;
+	int            unread = 0;
+	ioctl(c->fd, FIONREAD, &unread);
+	vs_log("t=%lld conn%d: closing with %d unread bytes", (long long) vs_now(), ci,
+	    unread);
 	for (int i = 0; i < 3; i++)
 		R[i].pump_conn = -1;
 	while (n > 0 && o + 8 <= (size_t) n) {
@@ -535,7 +544,7 @@ submit(rq *r, int idx, int nreq, int tmo)
 {
 	nng_msg *m;
 	VH_OK(nng_msg_alloc(&m, 0));
-	VH_OK(nng_msg_append(m, r->tag, r->taglen));
+	VH_OK(nng_msg_append(m, r->body, r->bodylen));
 	if (r->saio == NULL) {
 		VH_OK(nng_aio_alloc(&r->saio, send_cb, r));
 		VH_OK(nng_aio_alloc(&r->raio, recv_cb, r));
@@ -590,6 +599,8 @@ run_retry(void *arg)
 	rq *w     = &R[2];
 	w->tag    = "warm";
 	w->taglen = 4;
+	w->body    = w->tag;
+	w->bodylen = 4;
 	w->finite = sc->retry[0] > 0;
 	submit(w, 0, sc->nreq, -1);
 	pump();
@@ -621,6 +632,17 @@ run_retry(void *arg)
 		rq *r     = &R[i];
 		r->tag    = TAG[i];
 		r->taglen = 5;
+		r->body    = r->tag;
+		r->bodylen = 5;
+		if (sc->big) {
+			// a body larger than what the kernel buffers: the second request
+			// stays partly written while the replier does not read
+			static char bigbody[2][BIGBODY];
+			memset(bigbody[i], 'a' + i, BIGBODY);
+			memcpy(bigbody[i], TAG[i], 5);
+			r->body    = bigbody[i];
+			r->bodylen = BIGBODY;
+		}
 		r->finite = sc->retry[i] > 0;
 		submit(r, i, sc->nreq, tmo);
 	}
@@ -807,6 +829,7 @@ main(int argc, char **argv)
 		{ "2ctx-100+infinite", 2, { RESEND, -1 } },
 		{ "2ctx-infinite", 2, { -1, -1 } },
 		{ "2ctx-infinite+100", 2, { -1, RESEND } },
+		{ "2ctx-resend100-big", 2, { RESEND, RESEND }, 1 },
 	};
 	static int full[F_NLETTER];
 	for (int i = 0; i < F_NLETTER; i++)
@@ -814,7 +837,7 @@ main(int argc, char **argv)
 	g_map   = full;
 	g_nmap  = F_NLETTER;
 	g_depth = T ? 3 : 2;
-	for (int i = 0; i < 6; i++) {
+	for (int i = 0; i < 7; i++) {
 		if (vx_time_left() < 30)
 			break;
 		explore(&SC[i]);
